@@ -327,7 +327,10 @@ func c01TimeLadder(c *core.Ctx) {
 		// one long run of one character inside each string mode (helpers that look back from every byte)
 		form{"<?php \"$a ", "\\\\", "\";"}, form{"<?php `$a ", "\\\\", "`;"}, form{"<?php <<<A\n$a ", "\\\\", "\nA;\n"}, form{"<?php '", "\\\\", "';"},
 		form{"<?php \"$a ", "$", "\";"}, form{"<?php \"$a ", "{", "\";"}, form{"<?php <<<A\n", "A", "\nA;\n"}, form{"<?php <<<A\n", " ", "A;\n"}, form{"<?php ", "?", ";"},
-		form{"<?php ", "<", ";"}, form{"", "<", ""}, form{"<?php /*", "*", "/"}, form{"<?php \"$a[", "]", "\";"}, form{"<?php $a", "-", ";"})
+		form{"<?php ", "<", ";"}, form{"", "<", ""}, form{"<?php /*", "*", "/"}, form{"<?php \"$a[", "]", "\";"}, form{"<?php $a", "-", ";"},
+		// a lexical construct that is never closed, with many lines and tokens behind its opener (the scanner looks ahead to
+		// the end of the input, gives up, and goes on token by token)
+		form{"<?php /*", "\n;", ""}, form{"<?php '", "\n;", ""}, form{"<?php \"", "\n$a;", ""}, form{"<?php `", "\n$a;", ""}, form{"<?php <<<A\n", "x\n$a;\n", ""}, form{"<?php <<<'A'\n", "x\n;\n", ""})
 	for _, fm := range forms {
 		pre, u, post := fm.pre, fm.unit, fm.post
 		for _, v := range []*version.Version{drive.V74, drive.V56} {
